@@ -131,4 +131,23 @@ crate::harnesses! {
         let e: i128 = any(); assert!(e.is_negative() == (e < 0), "i128");
         let f: isize = any(); assert!(f.is_negative() == (f < 0), "isize");
     }
+    // N20 callees of unit byteslice (le_u64_at / be_u64_before_end): the raw 8-byte reads of try_from_le_slice / try_from_be_slice, every in-bounds
+    // offset of a 24-byte slice, all contents (complete for this length; the offsets are symbolic)
+    #[cfg_attr(kani, kani::unwind(26))] fn core_specs_raw_u64_reads() {
+        let a: [u8; 24] = any();
+        let bytes: &[u8] = &a;
+        let off: usize = any(); assume(off <= 16);
+        let le = u64::from_le_bytes(unsafe { *bytes.as_ptr().add(off).cast() });
+        let mut want = 0u64;
+        let mut k = 0;
+        while k < 8 { want |= (bytes[off + k] as u64) << (8 * k); k += 1; }
+        assert!(le == want, "little-endian value of bytes[off..off+8]");
+        let back: usize = any(); assume(8 <= back && back <= 24);
+        let end = bytes.as_ptr_range().end;
+        let be = u64::from_be_bytes(unsafe { *end.sub(back).cast() });
+        let mut want = 0u64;
+        let mut k = 0;
+        while k < 8 { want |= (bytes[24 - back + 7 - k] as u64) << (8 * k); k += 1; }
+        assert!(be == want, "value of the eight bytes ending `back - 8` before the end, most significant first");
+    }
 }
